@@ -49,6 +49,18 @@ fn observe<S: BuildHasher>(it: &Interner<NonZeroU32, S>, model: &Model, strs: &[
             return Err(mismatch(format!("resolve({k}) = Some({m:?})"), format!("{got:?}"), format!("resolve of an issued key {when}")));
         }
     }
+    // keys that were never issued: the first unissued one, the one after it, the smallest and the largest key
+    let max = model.iter().map(|m| m.1.get()).max().unwrap_or(0);
+    for raw in [max.saturating_add(1), max.saturating_add(2), 1, u32::MAX] {
+        let k = NonZeroU32::new(raw).unwrap();
+        if model.iter().any(|m| m.1 == k) {
+            continue;
+        }
+        let got = it.resolve(k);
+        if got.is_some() {
+            return Err(mismatch(format!("resolve({k}) = None (the key was never issued; {} keys issued)", model.len()), format!("{got:?}"), format!("resolve of a never-issued key {when}: a key that stands for no string resolves to one")));
+        }
+    }
     for s in strs.iter().copied() {
         let want = key_of(model, s);
         let got = it.get(s);
@@ -59,36 +71,12 @@ fn observe<S: BuildHasher>(it: &Interner<NonZeroU32, S>, model: &Model, strs: &[
     Ok(())
 }
 
-/// Recorded, not judged (the property does not speak about keys that were never issued, nor about
-/// which numbers are used): what resolve does with unissued keys, and whether keys are 1, 2, 3, ...
+/// Recorded, not judged (the property does not say which numbers are used): whether keys are 1, 2, 3, ...
 fn record_incidentals<S: BuildHasher>(it: &Interner<NonZeroU32, S>, model: &Model, acc: &mut Acc) {
     let consecutive = model.iter().enumerate().all(|(i, m)| m.1.get() as usize == i + 1);
     acc.class(if consecutive { "interner: keys are 1, 2, 3, ... in order of first interning" } else { "interner: keys are not consecutive from 1 (recorded, not judged)" });
-    let max = model.iter().map(|m| m.1.get()).max().unwrap_or(0);
-    let mut some = false;
-    let mut panicked = false;
-    for k in [max.saturating_add(1), max.saturating_add(2), u32::MAX] {
-        let k = NonZeroU32::new(k).unwrap();
-        if model.iter().any(|m| m.1 == k) {
-            continue;
-        }
-        match vcore::catch(|| it.resolve(k).is_some()) {
-            Ok(true) => some = true,
-            Ok(false) => {}
-            Err(_) => panicked = true,
-        }
-    }
-    acc.class(if panicked {
-        "interner: resolve of a never-issued key panics (recorded, not judged)"
-    } else if some {
-        "interner: resolve of a never-issued key returns Some (recorded, not judged)"
-    } else {
-        "interner: resolve of a never-issued key returns None"
-    });
 }
 
-/// Two deserialiser routes of the one format c20 can link (serde_json): text (borrowed strings,
-/// `visit_str`) and `serde_json::Value` (owned strings, `visit_string`).
 fn roundtrip<S: BuildHasher + Default>(it: Interner<NonZeroU32, S>, via_value: bool) -> Result<Interner<NonZeroU32, S>, Mismatch> {
     if via_value {
         let v = serde_json::to_value(&it).map_err(|e| mismatch("serialises", e.to_string(), "serde_json::to_value of the interner"))?;
@@ -104,6 +92,7 @@ pub fn check<S: BuildHasher + Default>(ops: &[u64], strs: &[&str; 6], serde_at: 
     let mut model: Model = vec![];
     let mut deserialised = false;
     observe(&it, &model, strs, "on the empty interner")?;
+    acc.count("resolve_of_first_unissued_key");
     for (i, op) in ops.iter().enumerate() {
         if serde_at == Some(i) {
             it = roundtrip(it, via_value)?;
@@ -156,6 +145,7 @@ pub fn check<S: BuildHasher + Default>(ops: &[u64], strs: &[&str; 6], serde_at: 
             }
         }
         observe(&it, &model, strs, &format!("after step {i}"))?;
+        acc.count("resolve_of_first_unissued_key");
     }
     if serde_at == Some(ops.len()) {
         it = roundtrip(it, via_value)?;
